@@ -618,7 +618,7 @@ class Polygon(Shape2D):
 
         x, resids, _, _ = np.linalg.lstsq(a, b, None)
         # The residual has dimension length^2; compare it relative to the radius.
-        if len(self.vertices) > 4 and not np.isclose(resids, 0, atol=1e-8 * x[3] ** 2):
+        if len(self.vertices) > 3 and not np.isclose(resids, 0, atol=1e-8 * x[3] ** 2):
             raise RuntimeError("No incircle for this polygon.")
 
         return Circle(x[3], x[:3])
